@@ -291,11 +291,10 @@ func TestBytes(t *testing.T) {
 	}
 	// regression list: every hostile document unmodified (shard 0)
 	var regress []byteCase
-	if shard, _ := vk.Shard(); shard == 0 {
-		for _, n := range byteSeedNames {
-			if strings.HasPrefix(n, "const:") {
-				regress = append(regress, byteCase{Seed: n}, byteCase{Seed: n, Strict: true})
-			}
+	shard, shards := vk.Shard()
+	for i, n := range byteSeedNames {
+		if strings.HasPrefix(n, "const:") && i%shards == shard {
+			regress = append(regress, byteCase{Seed: n}, byteCase{Seed: n, Strict: true})
 		}
 	}
 	u.Set("seeds", len(byteSeedNames))
